@@ -38,6 +38,11 @@ func execLine(line string) string {
 			return execGen15(t[1:])
 		case "rpc":
 			return execRPC(t[1:])
+		case "embargo":
+			if len(t) != 3 || t[1] != "sched" {
+				return "bad-op"
+			}
+			return execEmbargo(t[2])
 		case "rpcq":
 			// the outbound half: the same scripted Conn, no bootstrap capability of its own (Model.RpcQ's domain)
 			if len(t) != 3 || t[1] != "script" {
